@@ -187,7 +187,7 @@ def run(ctx, R):
             try:
                 for t in types:
                     ip = A.Interp(C, intrinsics=intr2)
-                    res = A.deref(ip.call_fn(g, ["prop", t, A.Enum(OP, v, [A.Tuple([]), A.Sym("arg")])]))
+                    res = A.deref(ip.call_by_type(g, [("str", "prop"), ("Type", t), ("Operation", A.Enum(OP, v, [A.Tuple([]), A.Sym("arg")]))]))
                     got = "Err" if res.variant == "Err" else A.deref(res.fields[0]).key()
                     if got != want(v, t) and bad is None:
                         bad = (repr(t), got)
